@@ -199,6 +199,29 @@ func Use(
 }
 `
 
+// files whose ONLY reference to the restricted types is an embedded field
+const c04SrcWEmb = `package d
+
+import dd "zzmod/d"
+
+type Emb struct {
+	dd.T // W-EMB
+}
+
+type EmbP struct {
+	*dd.R // W-EMBP
+}
+`
+
+const c04SrcDotEmb = `package dot
+
+import . "zzmod/d"
+
+type E struct {
+	R // DOT-EMB
+}
+`
+
 // ZZC04Names: two types of d with a method of the SAME name (plus a function of that name), each with its own allow-list;
 // a user package that shares d's package name under another path; a user file without imports.
 func ZZC04Names() {
@@ -208,7 +231,8 @@ func ZZC04Names() {
 	annRM := nd.EnumPad("annRM", " @packageonly", " @packageonly u", " @packageonly zzmod/x/d", " plain")
 	annFM := nd.EnumPad("annFM", " @packageonly", " @packageonly u", " @packageonly d", " plain")
 	holes := []nd.Hole{{"annT", annT}, {"annR", annR}, {"annTM", annTM}, {"annRM", annRM}, {"annFM", annFM}}
-	files := []nd.File{{Pkg: "zzmod/d", Name: "d.go", Src: c04SrcD2}, {Pkg: "zzmod/u", Name: "u1.go", Src: c04SrcU1}, {Pkg: "zzmod/u", Name: "u3.go", Src: c04SrcU3}, {Pkg: "zzmod/x/d", Name: "w.go", Src: c04SrcW}, {Pkg: "zzmod/dot", Name: "dot.go", Src: c04SrcDot}}
+	files := []nd.File{{Pkg: "zzmod/d", Name: "d.go", Src: c04SrcD2}, {Pkg: "zzmod/u", Name: "u1.go", Src: c04SrcU1}, {Pkg: "zzmod/u", Name: "u3.go", Src: c04SrcU3}, {Pkg: "zzmod/x/d", Name: "w.go", Src: c04SrcW}, {Pkg: "zzmod/dot", Name: "dot.go", Src: c04SrcDot},
+		{Pkg: "zzmod/x/d", Name: "emb.go", Src: c04SrcWEmb}, {Pkg: "zzmod/dot", Name: "dotemb.go", Src: c04SrcDotEmb}}
 	prog := nd.LoadProgram(files, holes)
 	cfg := config.Default()
 	rd := Analyze(prog, cfg, "zzmod/d", Facts{}, "pkgo")
@@ -223,6 +247,7 @@ func ZZC04Names() {
 		{"/zz/zzmod/dot/dot.go", nd.LineOf(c04SrcDot, "DOT-PT"), "PKGO01", on(annT)},
 		{"/zz/zzmod/dot/dot.go", nd.LineOf(c04SrcDot, "DOT-TM"), "PKGO03", on(annTM)},
 		{"/zz/zzmod/dot/dot.go", nd.LineOf(c04SrcDot, "DOT-FM"), "PKGO02", on(annFM)},
+		{"/zz/zzmod/dot/dotemb.go", nd.LineOf(c04SrcDotEmb, "DOT-EMB"), "PKGO01", on(annR)},
 	}, "C04 dot-importing user package")
 	uT := nd.HasPrefix(annT, " @packageonly u")
 	wT := nd.Or(nd.HasPrefix(annT, " @packageonly d"), nd.HasPrefix(annT, " @packageonly zzmod/x/d"))
@@ -248,5 +273,45 @@ func ZZC04Names() {
 		{fw, nd.LineOf(c04SrcW, "W-RM"), "PKGO03", nd.And(on(annRM), nd.Not(wRM))},
 		{fw, nd.LineOf(c04SrcW, "W-FM"), "PKGO02", nd.And(on(annFM), nd.Not(wFM))},
 		{fw, nd.LineOf(c04SrcW, "W-MEXPR"), "PKGO03", nd.And(on(annTM), nd.Not(wTM))},
+		// an embedded field is a reference to the type like a named field
+		{"/zz/zzmod/x/d/emb.go", nd.LineOf(c04SrcWEmb, "W-EMB"), "PKGO01", nd.And(on(annT), nd.Not(wT))},
+		{"/zz/zzmod/x/d/emb.go", nd.LineOf(c04SrcWEmb, "W-EMBP"), "PKGO01", nd.And(on(annR), nd.Not(wR))},
 	}, "C04 user package sharing the declaring package's name")
+}
+
+const c04SrcCore = `package core
+
+//«annF»
+func F() {}
+
+//«annT»
+type T struct{}
+`
+
+const c04SrcAppCore = `package core
+
+import dcore "core"
+
+func Use() {
+	dcore.F() // AC-CALL
+	_ = dcore.T{} // AC-LIT
+}
+`
+
+// ZZC04SelfName: "a bare @packageonly allows only D" also when D's import path is a single element that another
+// package carries as its NAME (D = "core", user = ".../app/core", package core).
+func ZZC04SelfName() {
+	annF := nd.EnumPad("annF", " @packageonly", " @packageonly other", " @packageonly core/x", " plain")
+	annT := nd.EnumPad("annT", " @packageonly", " @packageonly other", " plain")
+	holes := []nd.Hole{{"annF", annF}, {"annT", annT}}
+	files := []nd.File{{Pkg: "core", Name: "c.go", Src: c04SrcCore}, {Pkg: "zzmod/app/core", Name: "u.go", Src: c04SrcAppCore}}
+	prog := nd.LoadProgram(files, holes)
+	cfg := config.Default()
+	rd := Analyze(prog, cfg, "core", Facts{}, "pkgo")
+	ru := Analyze(prog, cfg, "zzmod/app/core", Facts{"core": &rd.Ann}, "pkgo")
+	f := "/zz/zzmod/app/core/u.go"
+	CheckExact(ru.Diags, []Expect{
+		{f, nd.LineOf(c04SrcAppCore, "AC-CALL"), "PKGO02", nd.HasPrefix(annF, " @packageonly")},
+		{f, nd.LineOf(c04SrcAppCore, "AC-LIT"), "PKGO01", nd.HasPrefix(annT, " @packageonly")},
+	}, "C04 the implicit entry for the declaring package is its PATH, not a package name")
 }
